@@ -358,43 +358,60 @@ pub(crate) fn reference_step<R: Real>(opt: &OptCfg, st: &mut RefState<R>, g32: f
 
 pub(crate) fn draw_optimizer(rng: &mut Rng) -> OptCfg {
     let decay = |rng: &mut Rng| if rng.chance(0.5) { Some(rng.pick(&[0.001f32, 0.01, 0.1])) } else { None };
+    // tiny but non-zero (all below f32::EPSILON): legal values that must be used as given,
+    // not mistaken for the exact 0.0 that means "use the default"
+    const TINY: [f32; 4] = [1e-7, 3e-8, 1e-10, 1e-30];
     let lr = |rng: &mut Rng, zero_ok: bool| {
         if zero_ok && rng.chance(0.08) {
             0.0
+        } else if rng.chance(0.04) {
+            rng.pick(&TINY)
         } else {
             rng.pick(&[0.001f32, 0.01, 0.05, 0.1, 0.5, 1.0])
         }
     };
+    let or_tiny = |rng: &mut Rng, v: f32| if rng.chance(0.05) { rng.pick(&TINY) } else { v };
+    // (not below 1e-10: when single precision cancels a centred variance to exactly 0 the
+    // step is g / epsilon, and with 1e-30 that alone overflows - inherent, not a defect)
+    const EPS: [f32; 7] = [0.0, 1e-8, 1e-8, 1e-6, 1e-3, 1e-7, 1e-10];
     match rng.below(5) {
         0 => OptCfg::SGD { lr: lr(rng, true), decay: decay(rng) },
         1 => OptCfg::SGDM {
             lr: lr(rng, true),
-            momentum: rng.pick(&[0.0f32, 0.5, 0.9, 0.99, 0.999]),
+            momentum: { let v = rng.pick(&[0.0f32, 0.5, 0.9, 0.99, 0.999]); or_tiny(rng, v) },
             dampening: rng.pick(&[0.0f32, 0.0, 0.1, 0.5, 0.9, 1.0]),
             decay: decay(rng),
         },
         2 => OptCfg::Adam {
             lr: lr(rng, true),
-            beta1: rng.pick(&[0.0f32, 0.5, 0.9, 0.95, 0.999]),
-            beta2: rng.pick(&[0.0f32, 0.9, 0.99, 0.999, 0.9999]),
-            epsilon: rng.pick(&[0.0f32, 1e-8, 1e-6, 1e-3]),
+            beta1: { let v = rng.pick(&[0.0f32, 0.5, 0.9, 0.95, 0.999]); or_tiny(rng, v) },
+            beta2: { let v = rng.pick(&[0.0f32, 0.9, 0.99, 0.999, 0.9999]); or_tiny(rng, v) },
+            epsilon: rng.pick(&EPS),
             decay: decay(rng),
         },
         3 => OptCfg::AdamW {
             lr: lr(rng, true),
-            beta1: rng.pick(&[0.0f32, 0.5, 0.9, 0.95]),
-            beta2: rng.pick(&[0.0f32, 0.9, 0.99, 0.999]),
-            epsilon: rng.pick(&[0.0f32, 1e-8, 1e-6, 1e-3]),
-            decay: rng.pick(&[0.0f32, 0.01, 0.1]),
+            beta1: { let v = rng.pick(&[0.0f32, 0.5, 0.9, 0.95]); or_tiny(rng, v) },
+            beta2: { let v = rng.pick(&[0.0f32, 0.9, 0.99, 0.999]); or_tiny(rng, v) },
+            epsilon: rng.pick(&EPS),
+            decay: rng.pick(&[0.0f32, 0.01, 0.1, 1e-7]),
         },
-        _ => OptCfg::RMSprop {
-            lr: lr(rng, true),
-            alpha: rng.pick(&[0.0f32, 0.5, 0.9, 0.99, 0.999]),
-            epsilon: rng.pick(&[0.0f32, 1e-8, 1e-6, 1e-3]),
-            decay: decay(rng),
-            momentum: if rng.chance(0.5) { Some(rng.pick(&[0.5f32, 0.9])) } else { None },
-            centered: rng.chance(0.5),
-        },
+        _ => {
+            let centered = rng.chance(0.5);
+            let alpha = rng.pick(&[0.0f32, 0.5, 0.9, 0.99, 0.999]);
+            OptCfg::RMSprop {
+                lr: lr(rng, true),
+                // not with the centred variant: its variance v - g_avg^2 = alpha (1 - alpha) g^2
+                // is then below one ulp of g^2, i.e. no single-precision evaluation of the
+                // documented rule can represent it (the step divides by epsilon alone and,
+                // with decay, runs away) - outside "moderate", whatever the implementation
+                alpha: if centered { alpha } else { or_tiny(rng, alpha) },
+                epsilon: rng.pick(&EPS),
+                decay: decay(rng),
+                momentum: if rng.chance(0.5) { Some(rng.pick(&[0.5f32, 0.9])) } else { None },
+                centered,
+            }
+        }
     }
 }
 
@@ -458,6 +475,7 @@ impl Property for C03 {
             "network_level_stateful",
             "network_level_step_via_learn",
             "slot_ge_2pow18_elements",
+            "tiny_nonzero_hyperparameter",
         ]
     }
 
@@ -540,6 +558,15 @@ impl Property for C03 {
         stats.probe("rmsprop_centered", matches!(opt, OptCfg::RMSprop { centered: true, .. }));
         stats.probe("rmsprop_momentum", matches!(opt, OptCfg::RMSprop { momentum: Some(_), .. }));
         stats.probe("default_substitution", substituted(opt) != *opt);
+        stats.probe("tiny_nonzero_hyperparameter", {
+            let t = |v: f32| v > 0.0 && v < f32::EPSILON;
+            match opt {
+                OptCfg::SGD { lr, .. } => t(*lr),
+                OptCfg::SGDM { lr, momentum, .. } => t(*lr) || t(*momentum),
+                OptCfg::Adam { lr, beta1, beta2, epsilon, .. } | OptCfg::AdamW { lr, beta1, beta2, epsilon, .. } => t(*lr) || t(*beta1) || t(*beta2) || (t(*epsilon) && *epsilon != 1e-8),
+                OptCfg::RMSprop { lr, alpha, epsilon, .. } => t(*lr) || t(*alpha) || (t(*epsilon) && *epsilon != 1e-8),
+            }
+        });
         stats.probe("slots_ge_3", case.slots.len() >= 3);
         stats.probe("slot_ge_2pow18_elements", case.slots.iter().any(|s| s.len() >= 1 << 18));
         stats.probe("interleaved", case.order.windows(2).filter(|w| w[0] != w[1]).count() >= 2);
